@@ -7,6 +7,7 @@ import (
 	"math/rand"
 	"runtime"
 	"runtime/debug"
+	"strings"
 
 	"github.com/cloudwego/gopkg/bufiox"
 	"github.com/cloudwego/gopkg/protocol/thrift"
@@ -150,9 +151,19 @@ func c03Run(cs *drv.Case, b []byte, skipTypes []byte, allocCap uint32) {
 			e := &c03Entries[i]
 			// entry points that allocate what the input declares: capped, unless the declared count is
 			// backed by the input itself (then the allocation is proportional to the input size)
-			if e.allocs && ((e.name == "UnmarshalFastMsg(BaseResp)" && win > allocCap && int(win) > len(b)) || (e.name != "UnmarshalFastMsg(BaseResp)" && !structOK)) {
-				cs.C.Obs("alloc-capped calls", 1)
-				continue
+			// The generated readers of Base / BaseResp read their own map field without looking at its key / value
+			// type bytes, so they may reach a count the grammar oracle never gets to (it stops at the unknown key
+			// type): for them the cap is the conservative scan of every 4-byte window, as for the message entry.
+			windowCapped := strings.Contains(e.name, "Base")
+			if e.allocs {
+				skip := e.name != "UnmarshalFastMsg(BaseResp)" && !structOK
+				if windowCapped && win > allocCap && int(win) > len(b) {
+					skip = true
+				}
+				if skip {
+					cs.C.Obs("alloc-capped calls", 1)
+					continue
+				}
 			}
 			c03Call(cs, e.name, b, in, pl, func() (int, bool) { return e.f(in) })
 			calls++
